@@ -23,7 +23,10 @@ from . import gen as G
 from . import lang as L
 from . import real as R
 
-MODEL_FILES = ["MypyVerif/Model/Lang.lean", "MypyVerif/Model/LangTc.lean"]
+MODEL_FILES = ["MypyVerif/Model/Lang.lean", "MypyVerif/Model/LangTc.lean", "MypyVerif/Model/LangSem.lean"]
+PROOF_FILES = ["MypyVerif/Proofs/LangBasic.lean", "MypyVerif/Proofs/LangEnv.lean", "MypyVerif/Proofs/LangNarrow.lean",
+               "MypyVerif/Proofs/LangOps.lean", "MypyVerif/Proofs/LangGlobal.lean", "MypyVerif/Proofs/LangSoundE.lean",
+               "MypyVerif/Proofs/LangSoundS.lean"]
 BATCH = 40
 
 
@@ -83,31 +86,38 @@ def real_call_str(c: dict) -> tuple[str, list]:
     return out, [(k, val_str(v)) for k, v in c["log"]]
 
 
-def shapes(p: L.Prog) -> list[str]:
-    """which of the known unsound program shapes (DESIGN §3 F18/F19) the program has — the Python twin of `Lang.WF`"""
-    out = []
+def shapes(p: L.Prog) -> dict[str, set]:
+    """which of the known unsound program shapes (DESIGN §3 F18/F19) the program has — the Python twin of `Lang.WF`;
+    shape ↦ the (class, attribute) pairs concerned"""
+    out: dict[str, set] = {}
     for c, cd in enumerate(p.classes):
         declared = []
         for k in cd.mro:
             declared += [f for f, _ in p.classes[k].attrs]
         assigned = {f for f, _ in cd.init_assigns}
-        if any(f not in assigned for f in declared):
-            out.append("declared-unassigned-attribute")
+        for f in declared:
+            if f not in assigned:
+                out.setdefault("declared-unassigned-attribute", set()).add((f"K{c}", f"a{f}"))
         if cd.base is not None:
             inherited = {}
             for k in reversed(p.classes[cd.base].mro):
                 inherited.update(dict(p.classes[k].attrs))
-            if any(f in inherited and inherited[f] != t for f, t in cd.attrs):
-                out.append("attribute-redeclared-with-different-type")
-    return sorted(set(out))
+            for f, t in cd.attrs:
+                if f in inherited and inherited[f] != t:
+                    out.setdefault("attribute-redeclared-with-different-type", set()).add((f"K{c}", f"a{f}"))
+    return out
 
 
 class Case:
-    def __init__(self, name: str, prog: L.Prog, calls: list, kind: str, note: str = ""):
+    def __init__(self, name: str, prog: L.Prog | None, calls: list, kind: str, note: str = "",
+                 src: str | None = None, pycalls: list[str] | None = None):
         self.name, self.prog, self.calls, self.kind, self.note = name, prog, calls, kind, note
-        self.src = L.to_python(prog)
-        self.lean = L.to_lean(prog, calls)
-        self.pycalls = [py_call(f, a) for f, a in calls]
+        if prog is not None:
+            self.src = L.to_python(prog)
+            self.lean = L.to_lean(prog, calls)
+            self.pycalls = [py_call(f, a) for f, a in calls]
+        else:                      # outside the model: Python text only
+            self.src, self.lean, self.pycalls = src, None, list(pycalls or [])
 
 
 # ------------------------------------------------------------------------------------------- the three sides
@@ -159,18 +169,23 @@ def R_val(v: dict) -> str:
 
 def report_failures(ctx: Ctx, case: Case, model: dict | None, fails: list[dict]) -> None:
     """Concrete failures of the property on an accepted program: known shape → KNOWN-FINDING, else VIOLATION."""
+    import re
     f = fails[0]
-    sh = shapes(case.prog) if case.prog is not None else []
-    observed = {"class": f["kind"]}
-    if case.kind.startswith("replay:"):
+    sh = shapes(case.prog) if case.prog is not None else {}
+    observed: dict = {"class": f["kind"]}
+    if case.kind.startswith("replay:") and case.prog is None:
         observed["program"] = case.kind.split(":", 1)[1]
     elif model is not None and model["tc"].startswith("hole"):
         observed["shape"] = {"hole 1": "union-receiver-attribute-assignment", "hole 2": "loop-pass-cap"}.get(model["tc"], model["tc"])
-    elif sh:
-        observed["shape"] = sh[0]
+    elif "declared-unassigned-attribute" in sh and f["kind"] == "AttributeError":
+        m = re.match(r"'(K\d+)' object has no attribute '(a\d+)'", f.get("msg", ""))
+        observed["shape"] = "declared-unassigned-attribute"
+        observed["attribute_is_unassigned"] = bool(m and (m.group(1), m.group(2)) in sh["declared-unassigned-attribute"])
+    elif "attribute-redeclared-with-different-type" in sh:
+        observed["shape"] = "attribute-redeclared-with-different-type"
     ctx.report(observed, f"mypy accepts {case.name} ({case.kind}) but {f['kind']} at run time: {json.dumps(f)[:300]}",
-               {"source": case.src, "calls": case.pycalls, "failures": fails[:5], "shapes": sh,
-                "model": model and {k: model[k] for k in ("wf", "tc")}})
+               {"source": case.src, "calls": case.pycalls, "failures": fails[:5], "shapes": {k: sorted(v) for k, v in sh.items()},
+                "lean_term": case.lean, "model": model and {k: model[k] for k in ("wf", "tc")}})
 
 
 def correspond(ctx: Ctx, cases: list[Case], stream: str) -> None:
@@ -283,14 +298,133 @@ def perturb_stream(ctx: Ctx, base: list[Case], n: int) -> None:
         correspond(ctx, cases[i:i + BATCH], "perturbed")
 
 
+# ------------------------------------------------------------------------------------------- explicit replays
+I_, S_, N_, O_ = (L.I,), (L.S,), (L.N,), (L.O,)
+
+
+def K(c):
+    return (L.C(c),)
+
+
+def known_programs() -> list[Case]:
+    """One program per known unsound shape; the four inside the model are the witnesses of Props/C01.lean."""
+    out = []
+    # F19 declared, never assigned
+    p = L.Prog([L.Cls(None, [(0, I_)], [], [], [])],
+               [L.Func([], [], I_, ("ret", ("attr", ("new", 0, []), 0)))])
+    p.fill_mro()
+    out.append(Case("kF19", p, [(0, [])], "replay:F19"))
+    # F18 covariant redeclaration of a mutable attribute
+    p = L.Prog([L.Cls(None, [(0, O_)], [O_], [(0, ("var", 0))], []),
+                L.Cls(0, [(0, I_)], [I_], [(0, ("var", 0))], [])],
+               [L.Func([K(0)], [], N_, ("setAttr", ("var", 0), 0, ("strLit", [115]))),
+                L.Func([], [K(1)], I_, L.seq([("decl", 0, ("new", 1, [("intLit", 1)])), ("expr", ("callF", 0, [("var", 0)])),
+                                               ("ret", ("add", ("attr", ("var", 0), 0), ("intLit", 1)))]))])
+    p.fill_mro()
+    out.append(Case("kF18", p, [(1, [])], "replay:F18"))
+    # assignment through a union receiver
+    p = L.Prog([L.Cls(None, [(0, I_)], [I_], [(0, ("var", 0))], []),
+                L.Cls(None, [(0, S_)], [S_], [(0, ("var", 0))], [])],
+               [L.Func([(L.C(0), L.C(1))], [], N_, ("setAttr", ("var", 0), 0, ("strLit", [115]))),
+                L.Func([], [K(0)], I_, L.seq([("decl", 0, ("new", 0, [("intLit", 1)])), ("expr", ("callF", 0, [("var", 0)])),
+                                               ("ret", ("add", ("attr", ("var", 0), 0), ("intLit", 1)))]))])
+    p.fill_mro()
+    out.append(Case("kUnionSet", p, [(1, [])], "replay:union-receiver-attribute-assignment"))
+    # the 4-pass cap of accept_loop
+    classes = [L.Cls(None if c == 0 else c - 1, [], [], [], []) for c in range(6)]
+    chain = ("expr", ("probe", 1, ("add", ("intLit", 1), ("strLit", [115]))))
+    for c in range(1, 6):
+        chain = ("ite", ("isinst", 1, c), ("assign", 1, ("new", c - 1, [])), chain, "elif")
+    body = L.seq([("decl", 1, ("new", 5, [])), ("assign", 1, ("new", 5, [])), ("decl", 2, ("intLit", 0)),
+                  ("while", ("not", ("eq", ("var", 2), ("var", 0))),
+                   L.seq([("assign", 2, ("add", ("var", 2), ("intLit", 1))), chain]))])
+    p = L.Prog(classes, [L.Func([I_], [K(0), I_], N_, body)])
+    p.fill_mro()
+    out.append(Case("kLoopCap", p, [(0, [("intLit", 7)]), (0, [("intLit", 3)])], "replay:loop-pass-cap"))
+    # outside the model
+    out.append(Case("kF16", None, [], "replay:F16-float-promotion", src=(
+        "def f(x: float) -> str:\n    return x.hex()\ndef t() -> str:\n    return f(1)\n"), pycalls=["t()"]))
+    out.append(Case("kF17", None, [], "replay:F17-type-constructor", src=(
+        "class A:\n    def __init__(self) -> None:\n        pass\n"
+        "class B(A):\n    def __init__(self, n: int) -> None:\n        self.n = n\n"
+        "def make(c: type[A]) -> A:\n    return c()\ndef t() -> A:\n    return make(B)\n"), pycalls=["t()"]))
+    return out
+
+
+EXPECTED_MODEL = {"kF19": (False, "ok"), "kF18": (False, "ok"), "kUnionSet": (True, "hole 1"), "kLoopCap": (True, "hole 2")}
+
+
+def known_stream(ctx: Ctx) -> None:
+    cases = known_programs()
+    inmodel = [c for c in cases if c.prog is not None]
+    correspond(ctx, inmodel, "known")
+    # the model must classify its own witnesses as the Lean theorems say
+    model = [parse_model_line(l) for l in ctx.lean_driver("Driver/C01.lean", [c.lean for c in inmodel])]
+    for c, m in zip(inmodel, model):
+        if (m["wf"], m["tc"]) != EXPECTED_MODEL[c.name]:
+            raise ToolFailure(f"driver classifies witness {c.name} as wf={m['wf']} tc={m['tc']}, expected {EXPECTED_MODEL[c.name]}")
+    raw = [c for c in cases if c.prog is None]
+    outside(ctx, raw, "known")
+
+
+def outside(ctx: Ctx, cases: list[Case], stream: str) -> None:
+    """programs outside the model: only the property's own oracle (testing)"""
+    mres = R.check_batch({c.name: c.src for c in cases})
+    accepted = [c for c in cases if not mres[c.name]["errors"] and not mres[c.name].get("crash")]
+    for c in cases:
+        if mres[c.name].get("crash"):
+            raise ToolFailure(f"mypy crashed on {c.name}: {mres[c.name]['crash']}")
+        ctx.dist(f"{stream}:mypy", "accepts" if c in accepted else "rejects")
+        if c not in accepted and stream == "wide":
+            ctx.coverage.setdefault("wide_rejected_samples", [])
+            if len(ctx.coverage["wide_rejected_samples"]) < 3:
+                ctx.coverage["wide_rejected_samples"].append({"templates": c.note, "errors": mres[c.name]["errors"][:3]})
+    jobs = [{"name": c.name, "src": c.src, "calls": c.pycalls, "dead": mres[c.name]["dead"]} for c in accepted]
+    rres = R.run_batch(jobs, ctx.tmp) if jobs else []
+    for c, rr in zip(accepted, rres):
+        ctx.case((stream, c.src), nontrivial=True)
+        ctx.count("searched_only_programs")
+        for call in rr["calls"]:
+            ctx.dist(f"{stream}:run", call["out"].split(":")[0])
+            ctx.count("searched_only_probe_events", len(call["log"]))
+        fails = oracle(ctx, c.name, c.src, mres[c.name], rr, c.pycalls)
+        if fails:
+            report_failures(ctx, c, None, fails)
+
+
+def wide_stream(ctx: Ctx, n: int) -> None:
+    from . import wide
+    w = wide.W(ctx.rng)
+    cases = []
+    for i in range(n):
+        src, calls, names = w.module(ctx.rng.randint(2, 5))
+        for nm in names:
+            ctx.dist("wide_templates", nm)
+        cases.append(Case(f"w{i}", None, [], "wide", ",".join(names), src=src, pycalls=calls))
+    for i in range(0, len(cases), BATCH):
+        outside(ctx, cases[i:i + BATCH], "wide")
+
+
 def main(ctx: Ctx) -> None:
     ctx.level = "proof"
-    ctx.coverage["rule"] = ("one case = one generated program (distinct by its Lean term) with its argument vectors; "
-                            "all are non-trivial (≥ 2 classes, ≥ 1 function with narrowing sites / loops / calls)")
-    proved = ctx.prove("MypyVerif.Props.C01", MODEL_FILES)
-    n = ctx.pick(120, 2000)
-    base = model_stream(ctx, n)
-    perturb_stream(ctx, base, ctx.pick(120, 2000))
+    ctx.coverage["rule"] = ("one case = one generated program (distinct by its Lean term / source text) with its argument "
+                            "vectors; all are non-trivial (≥ 2 classes, functions with narrowing sites, loops, calls). "
+                            "Streams: model (two-sided correspondence + oracle), perturbed (one ill-typing edit), known "
+                            "(one replay per known unsound shape), wide (outside the model: oracle only = testing)")
+    proved = ctx.prove("MypyVerif.Props.C01", MODEL_FILES + PROOF_FILES)
+    ctx.trusted("model: MiniPy stage 1 (Model/Lang.lean = CPython's behaviour on the fragment, Model/LangTc.lean = mypy's rules "
+                "on the fragment); both are validated against the real CPython / mypy on every run, on generated programs only",
+                "harness/c01: generator, Python/Lean renderers, canonicalisation of mypy types (Literal erased to its fallback), "
+                "the CPython child with its recording probe",
+                "covered by theorem: programs of the fragment accepted by tc with WF; searched only (testing): the `wide` stream "
+                "(generics, protocols, dataclasses, enums, tuples, containers, callables, overloads, TypedDict, NamedTuple, "
+                "match, try/finally, break/continue, walrus, truthiness/equality narrowing, multiple inheritance)")
+    ctx.assume("CPython 3.12 is the reference semantics (oracle)",
+               "probe ids are distinct per program (the generator numbers them), see soundness_probe")
+    known_stream(ctx)
+    base = model_stream(ctx, ctx.pick(120, 1500))
+    perturb_stream(ctx, base, ctx.pick(100, 1500))
+    wide_stream(ctx, ctx.pick(40, 600))
     if not proved and not ctx.violations:
         ctx.violation("Lean development for C01 no longer builds", {"broken": ctx.broken_ties}, found_input=False)
 
